@@ -11,6 +11,14 @@ CORRS = [
     # theorems (c05_pq_dequeue_min, c05_pq_step_refines …) prove about the heap MODEL, so the heap model must be an
     # acceptor for the real internal/queue.PriorityQueue on this run too (growth beyond 64 slots, shrinking, ties)
     dict(harness="heap", area="heap", name="heap-under-delayq"),
+    # evtrace: every single synchronisation action (mutex, the two cond generations with channel identities, select arms,
+    # ctx observations, NewTimer/Reset/Stop, every Delay() evaluation with its clock reading) of real concurrent executions
+    # on the event-logging twin of the scratch copy (harness/evinst), replayed step by step on Ekit.DelayQ.step under
+    # the timer discipline the process really runs (lean/Driver/Ev/DelayQ.lean)
+    dict(harness="evtrace", area="evtrace", name="evtrace-dq-sync", evinst=True, gen_args=["-targets", "dq"],
+         env=dict(GODEBUG="asynctimerchan=0")),
+    dict(harness="evtrace", area="evtrace", name="evtrace-dq-async", evinst=True, gen_args=["-targets", "dq"],
+         env=dict(GODEBUG="asynctimerchan=1")),
 ]
 
 
@@ -41,7 +49,15 @@ MANIFEST = dict(
           "theorem alone says nothing about time). The model is tied to the code by the sync skeletons of every function "
           "of delay_queue.go regenerated on each run, and by timed concurrent histories of the real queue under "
           "GODEBUG=asynctimerchan=0 and =1 which the model must explain (linearization search over runs of the model's step "
-          "function inside the calls' time brackets) and the property's own monitors must accept."),
+          "function inside the calls' time brackets) and the property's own monitors must accept; and by synchronisation-event "
+          "traces (harness/evinst + harness/evtrace target dq, driver area evtrace, lean/Driver/Ev/DelayQ.lean): an instrumented twin of "
+          "the scratch copy logs every Lock/Unlock, the swap/fetch/close of the two cond generations with channel identities, every "
+          "select arm, ctx observation, NewTimer/Reset/Stop (with Reset's result) and every Delay() evaluation with its clock reading "
+          "(read inside the log mutex) in an order that is a legal order of the real execution; the model's step function must accept "
+          "the log label by label under the timer discipline of the process - each logged action is the model's next synchronisation "
+          "action of that thread and is ENABLED, the heap's root is fed to the model's peek oracle (present and of minimal deadline), the "
+          "model's clock is moved to exactly the logged readings (so the model takes `delay <= 0` iff the code did and arms the timer "
+          "with the same duration) and otherwise only as far as a received tick / an expired Reset proves, snapshots and results are the model's."),
     note=COMMON_NOTE + (" The internal heap is abstracted: Peek/Dequeue return an element of minimal deadline (heap correctness is C05: its heap model is re-validated against the real PriorityQueue by this check as well; "
                         "the comparator evaluates Delay() at two instants, the model compares deadlines exactly, i.e. 'up to "
                         "clock-resolution ties' as the property says; the dynamic oracle uses a 2 ms tolerance). Mutex, channel "
